@@ -667,6 +667,70 @@ def with_violation(spec_sat: dict, tree: dict, rec: dict) -> dict:
     return spec
 
 
+def _ref_children(pt) -> list:
+    import qupulse.pulses as qp
+    t = type(pt).__name__
+    if t in ('SequencePulseTemplate', 'AtomicMultiChannelPulseTemplate'):
+        return list(pt.subtemplates)
+    if t in ('RepetitionPulseTemplate', 'ForLoopPulseTemplate'):
+        return [pt.body]
+    if t in ('MappingPulseTemplate', 'ParallelChannelPulseTemplate'):
+        return [pt.template]
+    if t == 'ArithmeticPulseTemplate':
+        return [pt._pulse_template]
+    if t == 'ArithmeticAtomicPulseTemplate':
+        return [pt.lhs, pt.rhs]
+    if t == 'TimeReversalPulseTemplate':
+        return [pt._inner]
+    return []
+
+
+def cancelled_names(spec: dict, declared) -> List[str]:
+    """names the EXPLICIT nesting (what Lean sees) declares, the implementation's tree does not, and for which the harness'
+    own simultaneous composition (sympy `subs(.., simultaneous=True)`) of a chain of directly nested mappings -- an outer
+    mapping above an anonymous constraint free one, which the constructor merges -- shows that they cancel:
+    `{v0: v1}` above `{v1: v1 - v0}` composes to `v1 := 0`.  The merged template legitimately needs fewer parameters than
+    the explicit nesting; such names are supplied to both sides.  A name that is merely LOST by the merge does not
+    cancel in the harness' composition and is not excused."""
+    import sympy
+    import qupulse.pulses as qp
+    try:
+        ref = build_ref(spec)
+    except Exception:  # noqa
+        return []
+    cand = set(ref.parameter_names) - set(declared)
+    if not cand:
+        return []
+
+    def pm_of(m):
+        return {sympy.Symbol(k): sympy.sympify(e.underlying_expression) for k, e in m.parameter_mapping.items()}
+
+    def mergeable(m):
+        return type(m) is qp.MappingPT and (m.identifier or '').startswith('ref') and not m.parameter_constraints
+
+    def merged(m):
+        mine = pm_of(m)
+        if mergeable(m.template):
+            inner = merged(m.template)
+            return {p: sympy.sympify(e).subs(mine, simultaneous=True) for p, e in inner.items()}
+        return mine
+
+    def free(d):
+        out: set = set()
+        for e in d.values():
+            out |= {str(x) for x in getattr(e, 'free_symbols', set())}
+        return out
+    explained: set = set()
+
+    def walk(node):
+        if type(node) is qp.MappingPT and mergeable(node.template):
+            explained.update(free(pm_of(node)) - free(merged(node)))
+        for c in _ref_children(node):
+            walk(c)
+    walk(ref)
+    return sorted(cand & explained)
+
+
 def make_streams(desc: dict) -> List[dict]:
     """phase B: the cases of all streams of one tree (spec + params); runs in a worker"""
     tree = desc['tree']
@@ -681,6 +745,11 @@ def make_streams(desc: dict) -> List[dict]:
     for n in unknown:                       # a declared name the generator has no value for (should not happen)
         values[n] = 1
     sat_params = {n: values[n] for n in declared}
+    cancelled = cancelled_names(spec_sat, declared) if has_nested_map(spec_sat) else []
+    if cancelled:
+        # the explicit nesting needs them, the merged template does not: both sides get a value
+        sat_params.update({n: values.get(n, 1) for n in cancelled})
+        base['cancelled'] = cancelled
     cases.append(dict(base, stream='sat', spec=spec_sat, params=sat_params, observe=True))
     usable = [r for r in tree['recs'] if not r['bad']]
     visible = [r for r in usable if r['visits'] > 0]
@@ -705,7 +774,7 @@ def make_streams(desc: dict) -> List[dict]:
             inner.add(n['idx'])
         if n['k'] == 'map':
             inner.update(p for p, _ in (n.get('pm') or []))
-    pool = sorted((inner | {'x1', 'x2', 'A', 'm', 'T', 'tt'} | set(values)) - set(declared) - {'t'})
+    pool = sorted((inner | {'x1', 'x2', 'A', 'm', 'T', 'tt'} | set(values)) - set(declared) - set(cancelled) - {'t'})
     extra = {n: fnum(F(rng.randrange(-40, 41), 8)) for n in rng.sample(pool, min(len(pool), rng.choice([1, 2, 3, 5])))}
     cases.append(dict(base, stream='extra', spec=spec_sat, params=dict(sat_params, **extra), base_params=sat_params,
                       extra=sorted(extra), observe=True))
@@ -893,6 +962,8 @@ def assess(ctx: core.Ctx, rec: dict, count=True) -> Tuple[List[dict], List[str],
             ctx.count('with-loop-range-naming-its-own-index')
         if any(n.get('cons_as') in ('gen', 'map', 'iter') for n in ptgen.spec_nodes(rec['case']['spec'])):
             ctx.count('with-constraints-given-as-one-shot-iterable')
+        if rec['case'].get('cancelled'):
+            ctx.count('with-names-that-cancel-in-a-merged-mapping')
         if any(n.get('via') for n in ptgen.spec_nodes(rec['case']['spec'])):
             ctx.count('with-node-built-by-a-helper-constructor')
         if any(n.get('remap') for n in ptgen.spec_nodes(rec['case']['spec'])) or \
@@ -1028,9 +1099,10 @@ def _restrict_params(case: dict) -> dict:
     declared = set(pt.parameter_names)
     c = dict(case)
     extra = set(case.get('extra') or [])
-    c['params'] = {k: v for k, v in case['params'].items() if k in declared or k in extra}
+    keep = declared | set(case.get('cancelled') or [])
+    c['params'] = {k: v for k, v in case['params'].items() if k in keep or k in extra}
     if case.get('base_params') is not None:
-        c['base_params'] = {k: v for k, v in case['base_params'].items() if k in declared}
+        c['base_params'] = {k: v for k, v in case['base_params'].items() if k in keep}
     return c
 
 
@@ -1592,6 +1664,14 @@ def replay(ctx: core.Ctx, rec: dict, from_corpus: bool = False) -> bool:
     if case is None:
         return True
     case = dict(case, stream=rec.get('stream', case.get('stream', 'replay')))
+    if rec.get('expect_cancelled') is not None:
+        # regression of the harness' own composition of merged mappings (see `cancelled_names`)
+        try:
+            got = cancelled_names(case['spec'], sorted(build_impl(case['spec']).parameter_names))
+        except Exception as exc:  # noqa
+            got = 'error: %s' % type(exc).__name__
+        if got != rec['expect_cancelled']:
+            ctx.drift('names that cancel in a merged mapping (harness composition)', case, got, rec['expect_cancelled'])
     recs = evaluate_given([case])
     ok = True
     for r in recs:
